@@ -5,6 +5,7 @@
 import Driver.MountFS
 import Driver.CmdFlow
 import Driver.GCS
+import Driver.SshPool
 
 open Desync Driver
 
@@ -15,7 +16,7 @@ partial def loop (h : IO.FS.Stream) (out : IO.FS.Stream) : IO Unit := do
   if l.isEmpty || l.startsWith "#" then
     loop h out
   else
-    let r := runLineGCS l
+    let r := runLineSshPool l
     out.putStrLn r
     out.flush
     loop h out
